@@ -11,3 +11,6 @@ Inductive instr : Type :=
 | IStoreSucc (r : nat)   (* self._cur_req_id := local r + 1 *)
 | IEmit (r : nat)        (* headers[KEY] = format(local r); Request handed to the opener *)
 | IPass.                 (* Request handed to the opener with the caller's headers *)
+
+(* what a wrapper connection stores as its conn_impl (read from _HttpConnBase.__init__) *)
+Inductive impl_rule : Type := RShareParent | ROwnImpl.
